@@ -4,7 +4,7 @@
    lists neither among the commands that must treat it as absent. *)
 From MC Require Import Model.Base Model.Generated Model.Store Model.Memc Model.Codec Model.Handler
   Model.Conc Model.PolConc Spec.Exec Proofs.StoreLemmas Proofs.SetLemmas Proofs.MemcLemmas Proofs.Effects Proofs.PC06
-  Proofs.PC01 Proofs.PC05 Proofs.PC05c.
+  Proofs.PC01 Proofs.PC05 Proofs.PC05c Proofs.PGuards Model.RustInt.
 
 (* stored at time t with TTL e: retrievable at every clock < t + e (e = 0: for
    ever), whatever happens to other keys *)
@@ -92,3 +92,27 @@ Theorem C05_no_expired_answer_policy :
   forall i t r, gnth i ts = Some t -> In (PGetR (ROk r)) (g_done t) -> expired now r = false.
 Proof. exact no_expired_answer_policy. Qed.
 Print Assumptions C05_no_expired_answer_policy.
+
+(* the expiry tests of the source (MemoryStore::check_if_expired: the early returns on
+   the record that was read, the predicate on the record stored when it removes),
+   translated on every run, evaluate to the model's [expired] wherever timestamp + ttl
+   fits a u64; and a delayed flush re-dates exactly the records the model re-dates *)
+Theorem C05_expired_read_is_source : src_expired_read_ok = true ->
+  forall r now, r_ts r + r_ttl r < two64 ->
+  src_expired_read (r_ts r) (r_ttl r) now = Some (expired now r).
+Proof. exact expired_read_is_source. Qed.
+Print Assumptions C05_expired_read_is_source.
+
+Theorem C05_expired_stored_is_source : src_expired_stored_ok = true ->
+  forall r now, r_ts r + r_ttl r < two64 ->
+  src_expired_stored (r_ts r) (r_ttl r) now = Some (expired now r).
+Proof. exact expired_stored_is_source. Qed.
+Print Assumptions C05_expired_stored_is_source.
+
+Theorem C05_flush_redate_is_source : src_flush_redate_ok = true ->
+  forall r now delay, r_ts r + r_ttl r < two64 -> now + delay < two64 ->
+  exists b, src_flush_redate (r_ts r) (r_ttl r) now delay = Some b /\
+            flush_record now delay r =
+              if b then mkRec now (r_cas r) (r_flags r) delay (r_val r) else r.
+Proof. exact flush_redate_is_source. Qed.
+Print Assumptions C05_flush_redate_is_source.
